@@ -134,11 +134,15 @@ class AbstractKernel:
         if env.sym:
             from pvc import storch as st
             self.g1 = st.tensor(g1); self.g2 = st.tensor(g2)
-            st.set_external('autograd.functional.jacobian', lambda func, x, **k: self.g1.reshape(x.shape))
+            def jac_(func, x, **k):
+                self.seen_at = x                  # the point the slope is taken at
+                return self.g1.reshape(x.shape)
+            st.set_external('autograd.functional.jacobian', jac_)
             calls = []
             def grad(outputs, inputs, create_graph=False, **k):
                 calls.append(1)
                 if len(calls) % 2 == 1:
+                    self.seen_at = inputs
                     r = self.g1.reshape(inputs.shape); r.requires_grad = True      # create_graph=True: the slope is differentiable again
                     return (r,)
                 return (self.g2.reshape(inputs.shape),)
@@ -148,6 +152,7 @@ class AbstractKernel:
             self.x0 = None
 
     def __call__(self, x):
+        self.seen_at = x if self.env.sym else x.detach().clone()        # where the kernel (and so its derivatives) is evaluated
         if self.env.sym:
             return x * 0
         if self.x0 is None or self.x0.shape != x.shape:
@@ -237,6 +242,20 @@ for _cn in ('FastTriggs', 'Triggs'):
             env.eq('JtR_is_robust_gradient', Jc.transpose(-1, -2) @ Rc.reshape(-1), grad)
             env.eq('each residual item is scaled by the square root of its own slope', Rc.reshape(4, 2) * Rc.reshape(4, 2), g1 * R2d * R2d)
             env.safe('finite', Rc, Jc)
+    mk()
+
+
+for _cn in ('FastTriggs', 'Triggs'):
+    def mk(cname=_cn):
+        @obligation(f'C09.{cname}.evaluation_point', functions=[f'{COR}:{cname}.forward'] + ([f'{COR}:Triggs.compute_grads'] if cname == 'Triggs' else []), max_paths=16)
+        def evalpoint(env):
+            """the kernel and its derivatives are evaluated AT x_i = |R_i|^2 - the very argument the loss applies the kernel to - for every
+            residual, however small (the abstract-kernel contracts above are silent about WHERE rho' is taken)"""
+            cor = env.load(COR); T = env.T
+            k = AbstractKernel(env, 1, '-')
+            R = sym_matrix(env, 'R', 1, 2, regimes=('generic', 'tiny', 'zero')); J = sym_matrix(env, 'J', 2, 2)
+            getattr(cor, cname)(k)(R=R, J=J)
+            env.eq('kernel derivatives are taken at the squared norm of the residual', k.seen_at.reshape(-1), (R * R).sum(-1).reshape(-1))
     mk()
 
 
